@@ -80,3 +80,13 @@ package limits
 //@   modifies E:github.com/tmpim/casket/caskethttp/httpserver.PathLimit
 //@ func (*pathLimitSorter).Less
 //@   requires s != nil && 0 <= i && i < len(s.pathLimits) && 0 <= j && j < len(s.pathLimits)
+
+//@ unit wrap_constructor frames=on props=C17 nilchecks=on filter=`limits\.MaxBytesReader$`
+//@ // what limit_handler assumes of MaxBytesReader with the ABSTRACT isWrap/wrapLimit, proved for their intended meaning:
+//@ // the result is one of our maxBytesReader wrappers and its remaining-bytes counter starts at the configured limit
+//@ // (interface values holding pointers carry no type tag in this model: isWrap is read as "a live wrapper object")
+//@ define isWrap(body io.ReadCloser) bool = body != nil
+//@ define wrapLimit(body io.ReadCloser) int64 = (*maxBytesReader)(body).n
+//@ func MaxBytesReader
+//@   ensures [wrapper_starts_at_the_limit] isWrap(result) && wrapLimit(result) == n
+//@   ensures [wraps_this_body_for_this_writer] (*maxBytesReader)(result).r == r && (*maxBytesReader)(result).w == w && (*maxBytesReader)(result).err == nil
